@@ -798,6 +798,84 @@ class CTr:
 EXTRA_UNITS = []
 
 
+def pow_integer_loop(f):
+    """`Bicomplex._pow_integer`: a prologue (base, n = abs(n), out = one), a `while` loop over the state (out, base, n) whose body
+    is a sequence of (conditional) assignments, and `return <expr>`.  The loop becomes a recursion with fuel `n + 1` (the loop
+    variable must be halved: `n //= 2`), every statement is translated, nothing is assumed about what the loop computes."""
+    body = [st for st in f.body if not (isinstance(st, ast.Expr) and isinstance(st.value, ast.Constant))]
+
+    def nat(e):            # integer expressions over the loop variable n
+        if isinstance(e, ast.Name) and e.id == 'n':
+            return 'n'
+        if isinstance(e, ast.Constant) and isinstance(e.value, int) and not isinstance(e.value, bool) and e.value >= 0:
+            return str(e.value)
+        if isinstance(e, ast.BinOp) and type(e.op) in (ast.Mod, ast.FloorDiv, ast.Add, ast.Sub, ast.Mult):
+            return '(%s %s %s)' % (nat(e.left), {ast.Mod: '%', ast.FloorDiv: '/', ast.Add: '+', ast.Sub: '-', ast.Mult: '*'}[type(e.op)], nat(e.right))
+        raise Unsupported('integer expression ' + ast.unparse(e))
+
+    def cond(e):
+        if isinstance(e, ast.Compare) and len(e.ops) == 1:
+            op = {ast.Gt: '>', ast.GtE: '≥', ast.Lt: '<', ast.LtE: '≤', ast.Eq: '==', ast.NotEq: '!='}.get(type(e.ops[0]))
+            if op:
+                return '(%s %s %s)' % (nat(e.left), op, nat(e.comparators[0]))
+        raise Unsupported('condition ' + ast.unparse(e))
+
+    def bc(e):             # Bicomplex expressions over out, base
+        if isinstance(e, ast.Name) and e.id in ('out', 'base'):
+            return e.id
+        if isinstance(e, ast.BinOp) and isinstance(e.op, ast.Mult):
+            return '(%s.mul %s)' % (bc(e.left), bc(e.right))
+        raise Unsupported('bicomplex expression ' + ast.unparse(e))
+
+    def assign(st, indent):
+        if isinstance(st, ast.Assign) and len(st.targets) == 1 and isinstance(st.targets[0], ast.Name):
+            t = st.targets[0].id
+            if t in ('out', 'base'):
+                return '%slet %s := %s' % (indent, t, bc(st.value))
+            if t == 'n':
+                return '%slet n := %s' % (indent, nat(st.value))
+        if isinstance(st, ast.AugAssign) and isinstance(st.target, ast.Name) and st.target.id == 'n' and isinstance(st.op, ast.FloorDiv):
+            return '%slet n := (n / %s)' % (indent, nat(st.value))
+        if isinstance(st, ast.If) and not st.orelse and len(st.body) == 1 and isinstance(st.body[0], ast.Assign) \
+                and isinstance(st.body[0].targets[0], ast.Name) and st.body[0].targets[0].id in ('out', 'base'):
+            t = st.body[0].targets[0].id
+            return '%slet %s := if %s then %s else %s' % (indent, t, cond(st.test), bc(st.body[0].value), t)
+        raise Unsupported('loop statement ' + ast.unparse(st)[:80])
+
+    if len(body) != 5:
+        raise Unsupported('_pow_integer: expected prologue(3) / while / return, found %d statements' % len(body))
+    a0, a1, a2, loop, ret = body
+    if flat(ast.unparse(a0)) != 'base = self._inverse() if n < 0 else self':
+        raise Unsupported('_pow_integer prologue: ' + ast.unparse(a0))
+    if flat(ast.unparse(a1)) != 'n = abs(n)':
+        raise Unsupported('_pow_integer prologue: ' + ast.unparse(a1))
+    if flat(ast.unparse(a2)) != 'out = Bicomplex(np.ones_like(self.z1), np.zeros_like(self.z2))':
+        raise Unsupported('_pow_integer prologue: ' + ast.unparse(a2))
+    if not isinstance(loop, ast.While) or loop.orelse:
+        raise Unsupported('_pow_integer: no while loop')
+    if not any(isinstance(st, ast.AugAssign) and isinstance(st.op, ast.FloorDiv) and ast.unparse(st.value) == '2' for st in loop.body):
+        raise Unsupported('_pow_integer: the loop variable is not halved (termination argument of the translation)')
+    if not isinstance(ret, ast.Return):
+        raise Unsupported('_pow_integer: no return')
+    test = cond(loop.test)
+    stmts = '\n'.join(assign(st, '      ') for st in loop.body)
+    rexp = bc(ret.value)
+    return ("""/-- the `while` loop of `_pow_integer` on the state (out, base, n); `fuel` bounds the number of iterations -/
+def Bc.powLoop : Nat → Bc C → Bc C → Nat → Bc C
+  | 0, out, base, _ => %s
+  | fuel + 1, out, base, n =>
+    if %s then
+%s
+      Bc.powLoop fuel out base n
+    else %s
+
+def Bc.pow_integer [Div C] [OfNat C 0] [OfNat C 1] (self : Bc C) (n : Int) : Bc C :=
+  let base := if n < 0 then self.inverse else self
+  let n := n.natAbs
+  let out : Bc C := ⟨1, 0⟩
+  Bc.powLoop (n + 1) out base n""" % (rexp, test, stmts, rexp))
+
+
 def gen_bicomplex(status, baseline):
     u = Unit('Bicomplex.lean', '''/- GENERATED by translator/py2lean.py from src/numdifftools/multicomplex.py (leaf methods of Bicomplex,
    as terms over ℂ: np.sin ↦ Complex.sin, …) — do not edit -/
@@ -849,6 +927,24 @@ variable {C : Type} [Add C] [Sub C] [Mul C] [Neg C]
             status[key] = {'ok': False, 'error': str(ex)}
             if key in baseline:
                 ring.add(key, baseline[key]['text'])
+    # _inverse (straight-line) and _pow_integer (square-and-multiply loop -> fuelled recursion)
+    key = 'BicomplexRing._inverse'
+    try:
+        body = CTr({}).method(fs['_inverse']).replace(' : ℂ', ' : C')
+        ring.add(key, 'def Bc.inverse [Div C] (self : Bc C) : Bc C :=\n  %s' % body)
+        status[key] = {'ok': True}
+    except (Unsupported, KeyError) as ex:
+        status[key] = {'ok': False, 'error': str(ex)}
+        if key in baseline:
+            ring.add(key, baseline[key]['text'])
+    key = 'BicomplexRing._pow_integer'
+    try:
+        ring.add(key, pow_integer_loop(fs['_pow_integer']))
+        status[key] = {'ok': True}
+    except (Unsupported, KeyError, IndexError, AttributeError) as ex:
+        status[key] = {'ok': False, 'error': str(ex)}
+        if key in baseline:
+            ring.add(key, baseline[key]['text'])
     EXTRA_UNITS.append(ring)
     # log1p: Bicomplex(<modulus part>, self.arg_c1p()) — only the first component is a leaf formula
     try:
